@@ -143,6 +143,7 @@ static bool live(int h) { return h >= 0 && h < n_init && geti(LX_alive, h) == 1;
 
 int yylex_init(yyscan_t *scanner) {
   ASSERT(n_init < SC_NS, "script lexer: more scanners created than the harness provides (model bound)");
+  ASSUME(n_init < SC_NS);   // (beyond the bound the tables would alias; the run is inconclusive there, not wrong)
   int h = n_init;
   seti(LX_alive, h, 1); seti(LX_hasbuf, h, 0); seti(LX_file, h, 0); seti(LX_pos, h, 0); seti(LX_lineno, h, nondet_int());
   for (int k = 0; k < SC_NS; k++) if (h == k) LX_extra[k] = 0;
